@@ -9,9 +9,12 @@
    sem c is DEFINED as the meaning of the document with every reference replaced by its (first-declared) replacement
    text, computed on the abstract syntax; parse (render c) yields exactly that (parse_render_sem_ent_partial), so two
    documents that differ only in what is routed through entities (hoist_insensitive_partial), and a document and its
-   fully inlined DOCTYPE-free version (inlined_equiv_partial), give identical trees.  `_partial`: entities whose
-   replacement text is character data (etext_only c: literals, character / predefined references, nested references);
-   replacement texts containing markup are decided by the metamorphic correspondence (D15 is the known finding there).
+   fully inlined DOCTYPE-free version (inlined_equiv_partial), give identical trees.  The
+   unrestricted theorems cover entities whose replacement text contains markup (elements with attributes, comments, PIs,
+   CDATA, text, further references), with text merging across entity boundaries; their size hypotheses are on the meaning
+   (an entity can multiply nodes).  The `_partial` variants (character-data entities) keep the input-length hypothesis.
+   Excluded by wf_doc, each with its reason in Spec/CstEnt.v: the CR LF proviso, D15 (the known finding), character
+   references to TAB / LF / CR / '&' / '<' inside entity values (declaration-time vs use-time reading).
    With allow_dtd = false the same rendering gives Err DtdDetected (dtd_refused, markup entities included).
    Statements are pinned here (copied verbatim from the proof files by tools/pin_props.py);
    each is re-proved by `exact` and followed by Print Assumptions. *)
@@ -22,12 +25,48 @@ From RX Require Import Generated.
 From RX.Model Require Import Base CharClass Stream Tokenizer Doc Builder Parse Api.
 From RX.Spec Require Import Text.
 From RX.Spec Require Cst CstText CstEnt.
-From RX.Proofs Require Import TextMachine HoistProofs RejectProofs CstMain CstTextSem CstEntSem CstEntDoc CstEntMain.
+From RX.Proofs Require Import TextMachine HoistProofs RejectProofs CstMain CstTextSem CstEntSem CstEntDoc CstEntMain CstEntCMain.
 Open Scope N_scope.
 
-(* ---- Proofs/CstEntMain.v ---- *)
+(* ---- Proofs/CstEntCMain.v ---- *)
 Module G0.
 Module E := CstEnt.
+Theorem C07_parse_render_sem_ent :
+  forall (c : E.doc) (opt : options),
+  E.wf_doc c = true -> allow_dtd opt = true ->
+  N.of_nat (length (E.sem c)) < nodes_limit opt ->
+  N.of_nat (length (E.sem c)) < u32_max ->
+  N.of_nat (edoc_nattrs c) < u32_max ->
+  exists d, parse (E.render c) opt = Ok d /\
+            view (E.render c) d = E.sem c /\
+            (forall nd ns local ar nss, In nd (d_nodes d) -> nd_kind nd = KElement ns local ar nss -> ns = None) /\
+            (forall a, In a (d_attrs d) -> ad_ns_idx a = None).
+Proof. exact parse_render_sem_ent. Qed.
+Print Assumptions C07_parse_render_sem_ent.
+
+Theorem C07_hoist_insensitive :
+  forall c1 c2 opt,
+  E.wf_doc c1 = true -> E.wf_doc c2 = true -> allow_dtd opt = true -> E.sem c1 = E.sem c2 ->
+  N.of_nat (length (E.sem c1)) < nodes_limit opt -> N.of_nat (length (E.sem c1)) < u32_max ->
+  N.of_nat (edoc_nattrs c1) < u32_max -> N.of_nat (edoc_nattrs c2) < u32_max ->
+  exists d1 d2, parse (E.render c1) opt = Ok d1 /\ parse (E.render c2) opt = Ok d2 /\
+                view (E.render c1) d1 = view (E.render c2) d2.
+Proof. exact hoist_insensitive. Qed.
+Print Assumptions C07_hoist_insensitive.
+
+Theorem C07_inlined_equiv :
+  forall (c : E.doc) (c' : T.doc) opt,
+  E.wf_doc c = true -> allow_dtd opt = true -> T.wf_doc c' = true -> T.sem c' = E.sem c ->
+  N.of_nat (length (E.sem c)) < nodes_limit opt -> N.of_nat (length (E.sem c)) < u32_max ->
+  N.of_nat (edoc_nattrs c) < u32_max -> N.of_nat (length (T.render c')) <= u32_max ->
+  exists d d', parse (E.render c) opt = Ok d /\ parse (T.render c') opt = Ok d' /\
+               view (E.render c) d = view (T.render c') d'.
+Proof. exact inlined_equiv. Qed.
+Print Assumptions C07_inlined_equiv.
+
+End G0.
+
+(* ---- Proofs/CstEntMain.v ---- *)
 Theorem C07_parse_render_sem_ent_partial :
   forall (c : E.doc) (opt : options),
   E.wf_doc c = true ->
@@ -72,8 +111,6 @@ Theorem C07_dtd_refused :
   parse (E.render c) opt = Err DtdDetected.
 Proof. exact dtd_refused. Qed.
 Print Assumptions C07_dtd_refused.
-
-End G0.
 
 (* ---- Proofs/HoistProofs.v ---- *)
 Theorem C07_push_attr_chunks_app :
@@ -209,7 +246,7 @@ Proof. exact attr_hoist_split_crlf. Qed.
 Print Assumptions C07_attr_hoist_split_crlf.
 
 (* ---- Proofs/RejectProofs.v ---- *)
-Module G2.
+Module G3.
 Local Notation token := Tokenizer.token.
 Theorem C07_find_entity_first :
   forall text es name e, find_entity text es name = Some e ->
@@ -230,4 +267,4 @@ Theorem C07_ok_refs_defined_first :
 Proof. exact ok_refs_defined_first. Qed.
 Print Assumptions C07_ok_refs_defined_first.
 
-End G2.
+End G3.
